@@ -73,7 +73,7 @@ def custom() -> t.Dict[str, t.Any]:
 
     @dataclasses.dataclass(frozen=True)
     class CustomAuth2(CustomAuth):
-        auth_id: int = dataclasses.field(init=False, repr=False, default=1025)
+        auth_id: int = dataclasses.field(init=False, repr=False, default=2)
 
         @classmethod
         def unpack(cls, reader: t.Any, options: t.Any) -> "CustomAuth2":
